@@ -366,9 +366,18 @@ def direct_oracles(ctx, n_pairs):
 
     units_month = ["month", "months", "Month", "MONTHS"]
     units_day = ["day", "days", "Day", "DAYS"]
-    for _ in range(3000):
-        pe = datetime.date.fromordinal(rng.randint(LO, HI - 4000))
-        ev = datetime.date.fromordinal(pe.toordinal() + rng.randint(0, 3999))
+    bd = gen_dates(rng, 6000, LO, HI - 4000)      # boundary-biased: month ends/starts +-2 days, leap days
+    for it in range(3000):
+        if it % 2:
+            pe = datetime.date.fromordinal(rng.randint(LO, HI - 4000))
+            ev = datetime.date.fromordinal(pe.toordinal() + rng.randint(0, 3999))
+        else:
+            pe, ev = sorted((bd[it], bd[it + 1])) if it + 1 < len(bd) else (bd[0], bd[1])
+            if rng.random() < 0.5:   # a few months apart, both near month boundaries
+                ev = min(datetime.date.fromordinal(HI), du.id_to_month(du.month_to_id(pe) + rng.randint(0, 6), False)
+                         - datetime.timedelta(days=rng.choice([0, 0, 1, 2])))
+                if ev < pe:
+                    ev = pe
         um, ud = rng.choice(units_month), rng.choice(units_day)
         days = ev.toordinal() - pe.toordinal()
         got = (du.calculate_dev_lag(pe, ev, ud), du.calculate_dev_lag(pe, ev, "timedelta"),
